@@ -79,6 +79,15 @@ CHECKS = {
    note="Trusted: CBMC+MiniSat path exploration, extractor rules, xcmp binary as generator of run-time code, C02/C12 for the simulator. Folder's int +,-,unary- verified under two's-complement "
         "wrap (signed-overflow check off for this unit: UB by the standard, C09's business). and/or/~ over boolean operands.",
    technique="CBMC symbolic execution of real compiler output on mechanically extracted simulator step vs extracted folder; replay on real xcmp + hexsim"),
+ "C06": dict(cat="proof", design="DESIGN.md §4 C06",
+   text="Lock-step simulation relation between the extracted hexsim (run() loop body, syscall, HexSimIO) and the extracted hextb (run() loop body split at the system-call sampling "
+        "`if`, handleSyscall) over the Verilator-generated model, in one translation unit: from R (registers equal, memories agree on loaded-or-written words, stream-file state equal, "
+        "reset asserted exactly while time<RESET_END, nets settled) one hexsim step and [tail of tick t, tick t+1, head of tick t+2] produce the same I/O event, input consumption, "
+        "termination and exit value and re-establish R -- for all register values, memory contents, defined instructions and tick numbers; base case from every power-on state to the "
+        "first R-point. Whole runs by induction (paper glue).",
+   note="Trusted: CBMC+MiniSat, Verilator 5.006, extractor rule lists, isa.h only for the property's quantifier. Assumes every word a step reads was loaded or written (the property's quantifier), "
+        "no READ into the SVC's own word, both loaders place the same image words. Banner, --max-cycles, VCD, OS exit-status truncation outside the contract. Native stage runs real hexsim vs real hextb.",
+   technique="CBMC relational (lock-step) contract harness over two mechanically extracted implementations; native comparison of the real tools"),
 }
 NA = {
  "C01": "compiler correctness over all X programs: needs an X semantics and a simulation proof over 3200 lines of STL C++ that CBMC cannot parse; no per-function contract expresses it (DESIGN §5)",
@@ -89,7 +98,6 @@ NA = {
  "C14": "process-level exit status / files on disk of four main()s, hinging on C++ exception propagation and overload resolution; outside CBMC's reach (DESIGN §5)",
 }
 PENDING = {
- "C06": "claimed by design (DESIGN §4); check not built yet in this round",
 }
 def main():
     checks = []
